@@ -50,6 +50,7 @@ var (
 // SortTable owns the datatype declarations generated so far (in dependency order).
 type SortTable struct {
 	byKey    map[string]*Sort
+	byUnder  map[*types.Struct]*Sort
 	decls    []string // datatype declarations in registration (dependency) order
 	arrays   map[string]*Sort
 	sizes    types.Sizes
@@ -161,11 +162,21 @@ func (st *SortTable) structSort(t types.Type, u *types.Struct) *Sort {
 	if s, ok := st.byKey[key]; ok {
 		return s
 	}
+	// A type defined from another struct type (type NodeURI url.URL) shares the very same *types.Struct: one sort,
+	// hence one heap, for both, so that a pointer conversion (*url.URL)(u) reads the fields u points to.
+	if st.byUnder == nil {
+		st.byUnder = map[*types.Struct]*Sort{}
+	}
+	if s, ok := st.byUnder[u]; ok {
+		st.byKey[key] = s
+		return s
+	}
 	name := "T_" + smtName(key)
 	if len(name) > 60 {
 		name = fmt.Sprintf("%s_%d", name[:50], len(st.byKey))
 	}
 	s := &Sort{Name: name, Kind: KStruct, Ctor: "mk_" + name, Go: t}
+	st.byUnder[u] = s
 	st.byKey[key] = s // (recursive struct types through slices/pointers are Int/Slice sorted: no cycle)
 	for i := 0; i < u.NumFields(); i++ {
 		f := u.Field(i)
